@@ -128,6 +128,7 @@ static int apply(sess *S, int ev, int judge, vres *r, uint64_t *dofact_ref)
         /* incomplete-LU session: every call judged like a fresh xgsisx call (C15's judge): structure (stored counts included), non-zero finite diagonal,
            scaling identities, X = the solve defined by the returned factors, complete-LU identity when dropping is off and no pivot was replaced */
         ilu_stats st; WK_COUNT(C_ILU);
+        if (kind != 3 && o_glu_storage(s, r)) return 1;
         if (o_ilu(s, trans, kind == 3 ? 2 : c->equil, &A_in, &B_in, &B_after, ilu_nodrop(c->k) && S->fact_info == 0, opt.ConditionNumber == YES, r, &st)) return 1;
         WK_RATIO(0, st.ratio_solve); if (st.exact) WK_RATIO(1, st.ratio_id);
         if (kind == 2) { if (!memcmp(rp_before, s->perm_r, sizeof(int) * n)) WK_COUNT(C_REUSED); else WK_COUNT(C_ABAND); }
@@ -141,6 +142,7 @@ static int apply(sess *S, int ev, int judge, vres *r, uint64_t *dofact_ref)
         if (ref_numerically_singular(&S->Aun) == 0 && !(v == 3) && c->u > 0) return wk_fail(r, "spurious-singular", "info=%ld although the matrix of this call is comfortably nonsingular", info);
         return 0;         /* genuinely (near-)singular values: C04's business */
     }
+    if (kind != 3 && o_glu_storage(s, r)) return 1;
     /* the column order and the elimination tree carried between calls stay consistent with each other: etree is the elimination tree of the matrix in
        the order perm_c (fresh after DOFACT, inputs of the reuse modes) */
     if (kind != 3 && is_perm(s->perm_c, n)) {
@@ -256,7 +258,7 @@ static void run_C06(const vcase *c, vres *r)
 }
 
 /* configurations */
-static const int TUNE_H[] = { 3, 10, 9, 0, 5, 4 };   /* (2,1,2..), (2,4,4..) relaxed supernodes of up to 4 columns, one relaxed supernode, defaults, (3,1,4..), (2,2,3..) */
+static const int TUNE_H[] = { 3, 10, 5, 9, 0, 4 };   /* (2,1,2..), (2,4,4..) relaxed supernodes of up to 4 columns, one relaxed supernode, defaults, (3,1,4..), (2,2,3..) */
 static const int VALS_H[] = { 2, 1, 7 };
 static const int ORD_H[8][2] = { { 3, 0 }, { 0, 0 }, { 2, 1 }, { 0, 1 }, { 1, 0 }, { 2, 0 }, { 3, 1 }, { 1, 1 } };   /* (ColPerm, SymmetricMode) */
 static const int U_H[] = { 0, 1, 4 };                         /* DiagPivotThresh 1, 0.1, 0 */
@@ -282,7 +284,7 @@ static void set06o(const int *d, vcase *c)   /* vendor-BLAS build: reduced produ
     int e[10] = { d[0], d[1], d[2], d[3], d[4], d[5], d[6], d[7], 0, d[8] }; set06(e, c);
 }
 static const family F06Qm[] = {
-    { "xgssvx: BASE6 x6 x dev{0..4} x type4 x tune3 x {COLAMD,NATURAL,MMD_AT+A sym,NATURAL sym} x Equil2 x refine2 x {library allocation fill 1, ample workspace} x vals{V2} x u{1,.1,0}: full reachability per configuration", 10, { 6, 5, 4, 3, 4, 2, 2, 2, 1, 3 }, set06 },
+    { "xgssvx: BASE6 x6 x dev{0..3} x type4 x tune4 x {COLAMD,NATURAL,MMD_AT+A sym,NATURAL sym} x Equil2 x refine2 x {library allocation fill 1, ample workspace} x vals{V2} x u{1,.1,0}: full reachability per configuration", 10, { 6, 4, 4, 4, 4, 2, 2, 2, 1, 3 }, set06 },
     { "xgsisx: BASE6 x6 x dev{0,1,2} x type4 x tune{(2,1,2..),default} x {COLAMD,NATURAL} x Equil2 x storage2 x {NODROP, BASIC tol .5, BASIC|AREA fill 1}", 8, { 6, 3, 4, 2, 2, 2, 2, 3 }, set06i },
     { "xgssvx on row storage: BASE6 x6 x dev{0,1,2} x type4 x {COLAMD,NATURAL} x Equil2 x refine2 x u{1,.1}", 7, { 6, 3, 4, 2, 2, 2, 2 }, set06r },
 };
